@@ -126,7 +126,10 @@ class Engine:
             assert lo is None or v >= lo, (name, v)
             assert hi is None or v <= hi, (name, v)
             return v
-        assert name not in self.vars, name
+        if name in self.vars:
+            # self-composition: a second copy of a scenario is built over the same variables
+            assert getattr(self, "reuse_vars", False), name
+            return SymInt(self.vars[name])
         c = z3.Int(name)
         self.vars[name] = c
         if lo is not None:
@@ -530,6 +533,18 @@ class SymBool:
 
     def __index__(self):
         return int(bool(self))
+
+    def __lt__(self, o):
+        return bool(self) < bool(o)
+
+    def __le__(self, o):
+        return bool(self) <= bool(o)
+
+    def __gt__(self, o):
+        return bool(self) > bool(o)
+
+    def __ge__(self, o):
+        return bool(self) >= bool(o)
 
 
 def And(*xs):
